@@ -233,7 +233,7 @@ where
                 let st = s.load(Ordering::SeqCst);
                 if st != 0 && now.saturating_sub(st) > limit_ms {
                     let case = current[w].lock().unwrap().clone().unwrap_or(Value::Null);
-                    let p = Path::new(VERIF_ROOT).join("replays").join(format!("{}-hang-{:016x}.json", id, hash_json(&case)));
+                    let p = out_root().join("replays").join(format!("{}-hang-{:016x}.json", id, hash_json(&case)));
                     std::fs::create_dir_all(p.parent().unwrap()).ok();
                     std::fs::write(&p, serde_json::to_vec_pretty(&json!({"property": id, "message": "watchdog: case did not finish", "case": case})).unwrap()).ok();
                     eprintln!(
@@ -337,8 +337,17 @@ pub fn hash_json<T: Serialize>(v: &T) -> u64 {
     h.finish()
 }
 
+/// Where new replay files and evidence go: /verif, or RNV_OUT_ROOT when set (sensitivity runs against a
+/// deliberately broken tree must not overwrite committed evidence nor add to the regression replays).
+pub fn out_root() -> PathBuf {
+    match std::env::var("RNV_OUT_ROOT") {
+        Ok(v) if !v.is_empty() => PathBuf::from(v),
+        _ => PathBuf::from(VERIF_ROOT),
+    }
+}
+
 pub fn write_replay<T: Serialize>(ctx: &Ctx, case: &T, message: &str) -> PathBuf {
-    let dir = Path::new(VERIF_ROOT).join("replays");
+    let dir = out_root().join("replays");
     std::fs::create_dir_all(&dir).ok();
     let h = hash_json(case);
     let p = dir.join(format!("{}-{:016x}.json", ctx.id, h));
@@ -365,6 +374,60 @@ pub fn saved_replays(id: &str) -> Vec<PathBuf> {
     };
     v.sort();
     v
+}
+
+
+/// Re-runs every saved replay of this property (regression tier), `workers` at a time. Returns the first
+/// replay that still fails (path, message). Discarded runs (infrastructure) are retried once and then ignored.
+pub fn rerun_saved_replays<T, F>(ctx: &Ctx, stats: &Arc<Stats>, workers: usize, f: F) -> Option<(PathBuf, String)>
+where
+    T: DeserializeOwned + Serialize + Send + 'static,
+    F: Fn(&T) -> CaseReport + Send + Sync + 'static,
+{
+    let files = saved_replays(&ctx.id);
+    if files.is_empty() {
+        return None;
+    }
+    let queue = Arc::new(Mutex::new(files));
+    let fail: Arc<Mutex<Option<(PathBuf, String)>>> = Arc::new(Mutex::new(None));
+    let f = Arc::new(f);
+    let mut hs = vec![];
+    for _ in 0..workers.max(1) {
+        let queue = queue.clone();
+        let fail = fail.clone();
+        let stats = stats.clone();
+        let f = f.clone();
+        hs.push(std::thread::spawn(move || loop {
+            let p = match queue.lock().unwrap().pop() {
+                Some(p) => p,
+                None => break,
+            };
+            if fail.lock().unwrap().is_some() {
+                break;
+            }
+            let case: T = match read_replay::<T>(&p) {
+                Ok(c) => c,
+                Err(_) => continue,
+            };
+            let mut rep = f(&case);
+            if matches!(rep.verdict, Verdict::Discard(_)) {
+                rep = f(&case);
+            }
+            stats.label("saved_replay_rerun");
+            stats.record(&case, &rep);
+            if let Verdict::Violation(m) = &rep.verdict {
+                let mut g = fail.lock().unwrap();
+                if g.is_none() {
+                    *g = Some((p.clone(), m.clone()));
+                }
+            }
+        }));
+    }
+    for h in hs {
+        let _ = h.join();
+    }
+    let r = fail.lock().unwrap().clone();
+    r
 }
 
 pub fn read_replay<T: DeserializeOwned>(path: &Path) -> anyhow::Result<T> {
@@ -417,7 +480,7 @@ pub struct Finish {
 }
 
 pub fn write_evidence(ctx: &Ctx, stats: &Stats, fin: &Finish, violations: u64) {
-    let dir = Path::new(VERIF_ROOT).join("evidence");
+    let dir = out_root().join("evidence");
     std::fs::create_dir_all(&dir).ok();
     let classes = stats.classes.lock().unwrap().clone();
     let known = stats.known.lock().unwrap().clone();
